@@ -335,6 +335,29 @@ class Ctx:
         sys.stdout.flush()
         return exit_code
 
+    def finish_replay(self, rp):
+        """after re-running the generator of a replay file: was its violation (or broken obligation) reproduced on the current tree?"""
+        shutil.rmtree(self.scratch, ignore_errors=True)
+        if rp.get("kind") == "failing-input":
+            hits = [v for v in self.violations if v["key"] == rp.get("key")]
+            if hits:
+                print("VIOLATION property=%s replay=%s" % (self.pid, self.replay))
+                print("REPRODUCED property=%s key=%s" % (self.pid, rp.get("key")))
+                print("  " + hits[0]["what"][:600])
+                return 1
+            print("NOT-REPRODUCED property=%s key=%s: the inputs of seed %d (tier %s) were generated again (%d evaluations) and this violation does not occur on the current tree" % (
+                self.pid, rp.get("key"), self.seed, self.tier, self.evaluations))
+            return 0
+        names = set(rp.get("no_longer_checks", []))
+        hits = [b for b in self.broken if b["name"] in names]
+        if hits:
+            print("VIOLATION property=%s replay=%s no-failing-input-found" % (self.pid, self.replay))
+            print("REPRODUCED property=%s no-failing-input-found: %s" % (self.pid, hits[0]["name"]))
+            print("  " + hits[0]["detail"][:600].replace("\n", " "))
+            return 1
+        print("NOT-REPRODUCED property=%s: %s check(s) again on the current tree" % (self.pid, ", ".join(sorted(names)) or "everything"))
+        return 0
+
     def _write_replay(self, key, obj):
         h = hashlib.md5((self.pid + key).encode()).hexdigest()[:10]
         path = os.path.join(EVID, "replay", "%s-%s.json" % (self.pid, h))
